@@ -437,10 +437,7 @@ class ConfigNode(metaclass=ConfigNodeMeta):
         '''
         self._priority = other._priority
         self._delete = other._delete
-        if other._safe is not None:
-            self._safe = notnone_or(self._safe, True) and other._safe
-        if other._default_safe is not None:
-            self._default_safe = notnone_or(self._default_safe, True) and other._default_safe
+        self._combine_safety(other)
         self._metadata = { **self._metadata, **other._metadata }
         if allow_promotions:
             ret = self._maybe_promote(other)
@@ -460,14 +457,25 @@ class ConfigNode(metaclass=ConfigNodeMeta):
             In such case, its content will be identical to the content of "self" after replacement has been done,
             with any extra content coming from other's type preserved.
         '''
+        self._combine_safety(other)
+        self._metadata = { **other._metadata, **self._metadata }
+        if allow_promotions:
+            ret = self._maybe_promote(other)
+        else:
+            ret = self
+        ret._propagate_implicit_values()
+        return ret
+
+    def _combine_safety(self, other):
+        ''' The result of merging two nodes is only safe if both were - for whichever reason "other" is unsafe:
+            marked so itself, coming from an unsafe source, or because it lives below an unsafe node.
+        '''
         if other._safe is not None:
             self._safe = notnone_or(self._safe, True) and other._safe
         if other._default_safe is not None:
             self._default_safe = notnone_or(self._default_safe, True) and other._default_safe
-        self._metadata = { **other._metadata, **self._metadata }
-        if allow_promotions:
-            return self._maybe_promote(other)
-        return self
+        if other._implicit_safe is False:
+            self._implicit_safe = False
 
     def _maybe_promote(self, other):
         ''' Possibly promote "other" to be returned rather than "self" if its type is preferred.
@@ -491,7 +499,7 @@ class ConfigNode(metaclass=ConfigNodeMeta):
                 other.extend(self)
             else:
                 other.update(self)
-            other.__dict__.update(self.__dict__)
+            other._take_over(self)
             return other
         elif issubclass(type(self), type(other)): # complex dict/list replaces simple dict/list, leave as is
             return self
@@ -501,12 +509,22 @@ class ConfigNode(metaclass=ConfigNodeMeta):
                 other.extend(self.values())
             else:
                 other.update(enumerate(self))
-            other.__dict__.update(self.__dict__)
+            other._take_over(self)
             return other
         elif not self._is_plain_composed() and other._is_plain_composed(): # complex dict/list replaces simple list/dict, leave as is
             return self
         else: # any other case, silently give up
             return self
+
+    def _take_over(self, other):
+        ''' Used when this node is promoted to stand for "other": it takes over the attributes of "other",
+            except that a node which is unsafe because of where it lives stays unsafe (like everywhere else,
+            an implicit safe flag set to False is never changed back).
+        '''
+        unsafe = self._implicit_safe is False
+        self.__dict__.update(other.__dict__)
+        if unsafe:
+            self._implicit_safe = False
 
     @classmethod
     def _is_composed(cls):
